@@ -9,6 +9,9 @@ package file
 //   TestVerifC07Load       runs the real offsetDB.load() of a fresh offsetDB on materialised disk states.
 //   TestVerifC07RoundTrip  job tables exported by TLC (specs/OffsetsFormat.tla) written by the real save and
 //                          read back by the real load in a fresh offsetDB.
+//   TestVerifC07Seq        scripted sequences of real truncateJob / commit / save calls (no strace), each save
+//                          followed by the real load() of a fresh offsetDB: the offset-0 family (a truncated
+//                          job holds 0 for every stream; 0 next to non-zero after one stream commits).
 //   TestVerifC07Conc       saves running concurrently with real jobProvider.commit calls while a reader
 //                          keeps loading the offsets file.
 //
@@ -173,7 +176,7 @@ func c07WriteJSON(t *testing.T, path string, v interface{}) {
 // (T) scripted protocol scenario, to be run under strace
 
 type c07Step struct {
-	Op     string `json:"op"` // commit | save
+	Op     string `json:"op"` // commit | truncate | save
 	Src    uint64 `json:"src"`
 	Stream string `json:"stream"` // hex
 	Off    int64  `json:"off"`
@@ -206,6 +209,10 @@ func TestVerifC07Proto(t *testing.T) {
 	jp := c07Provider("verif_c07_proto", cur, sc.Sync)
 	for i := range sc.Jobs {
 		j := c07MakeJob(&sc.Jobs[i])
+		if f, err := os.Open(os.DevNull); err == nil { // truncateJob seeks the job's file
+			defer f.Close()
+			j.file = f
+		}
 		jp.jobs[j.sourceID] = j
 	}
 	// set-up: the offsets file that a previous run left behind (written by the real save, before the
@@ -239,6 +246,17 @@ func TestVerifC07Proto(t *testing.T) {
 				jp.commit(c07Event(st.Src, c07Unhex(st.Stream), st.Off, seq))
 			}()
 			mark(fmt.Sprintf("commit_end %d", i))
+		case "truncate":
+			mark(fmt.Sprintf("truncate_begin %d %d", i, st.Src))
+			func() {
+				defer func() {
+					if r := recover(); r != nil {
+						mark(fmt.Sprintf("panic %d %s", i, hex.EncodeToString([]byte(fmt.Sprint(r)))))
+					}
+				}()
+				jp.truncateJob(jp.jobs[pipeline.SourceID(st.Src)]) // what the watcher path does when the file shrank
+			}()
+			mark(fmt.Sprintf("truncate_end %d", i))
 		case "save":
 			mark(fmt.Sprintf("save_begin %d", i))
 			func() {
@@ -362,6 +380,110 @@ func TestVerifC07RoundTrip(t *testing.T) {
 	}
 	wg.Wait()
 	c07WriteJSON(t, out, map[string]interface{}{"executed": len(tables), "results": results, "written": written})
+}
+
+// ---------------------------------------------------------------------------------------------
+// (R) sequences with truncation: real truncateJob + real commit + real save + real load of a fresh offsetDB
+
+type c07SeqCase struct {
+	ID    int       `json:"id"`
+	Sync  bool      `json:"sync"`
+	Jobs  []c07Job  `json:"jobs"`
+	Steps []c07Step `json:"steps"`
+}
+
+type c07SeqLoad struct {
+	Step int           `json:"step"`
+	Res  c07LoadResult `json:"res"`
+}
+
+type c07SeqResult struct {
+	ID    int          `json:"id"`
+	Panic string       `json:"panic,omitempty"`
+	Loads []c07SeqLoad `json:"loads"`
+}
+
+func c07RunSeq(dir string, c *c07SeqCase) (res c07SeqResult) {
+	res.ID = c.ID
+	res.Loads = []c07SeqLoad{}
+	defer func() {
+		if r := recover(); r != nil {
+			res.Panic = fmt.Sprint(r)
+		}
+	}()
+	cur := filepath.Join(dir, fmt.Sprintf("seq-%d.yaml", c.ID))
+	defer os.Remove(cur)
+	logPath := filepath.Join(dir, fmt.Sprintf("seq-%d.log", c.ID))
+	if err := os.WriteFile(logPath, make([]byte, 256), 0o600); err != nil {
+		panic(err)
+	}
+	defer os.Remove(logPath)
+	jp := c07Provider(fmt.Sprintf("verif_c07_seq_%d", c.ID), cur, c.Sync)
+	for i := range c.Jobs {
+		j := c07MakeJob(&c.Jobs[i])
+		f, err := os.Open(logPath) // truncateJob seeks the job's file back to 0
+		if err != nil {
+			panic(err)
+		}
+		defer f.Close()
+		j.file = f
+		jp.jobs[j.sourceID] = j
+	}
+	jp.offsetDB.save(jp.jobs, jp.jobsMu) // the file a previous run left behind
+	seq := uint64(0)
+	for i, st := range c.Steps {
+		switch st.Op {
+		case "commit":
+			seq++
+			jp.commit(c07Event(st.Src, c07Unhex(st.Stream), st.Off, seq))
+			if c.Sync {
+				res.Loads = append(res.Loads, c07SeqLoad{Step: i, Res: c07Load(c.ID, cur)})
+			}
+		case "truncate":
+			jp.truncateJob(jp.jobs[pipeline.SourceID(st.Src)])
+		case "save":
+			jp.offsetDB.save(jp.jobs, jp.jobsMu)
+			res.Loads = append(res.Loads, c07SeqLoad{Step: i, Res: c07Load(c.ID, cur)})
+		}
+	}
+	return res
+}
+
+func TestVerifC07Seq(t *testing.T) {
+	in, out := os.Getenv("VERIF_CASES"), os.Getenv("VERIF_OUT")
+	if in == "" || out == "" {
+		t.Skip("VERIF_CASES / VERIF_OUT not set")
+	}
+	var cases []*c07SeqCase
+	c07ReadNDJSON(t, in, func(line []byte) {
+		c := &c07SeqCase{}
+		if err := json.Unmarshal(line, c); err != nil {
+			t.Fatalf("bad case line: %v", err)
+		}
+		cases = append(cases, c)
+	})
+	dir, err := os.MkdirTemp("/dev/shm", "c07-seq-") // durability is not the subject of this family
+	if err != nil {
+		dir, err = os.MkdirTemp(os.Getenv("VERIF_SCRATCH"), "c07-seq-")
+	}
+	if err != nil {
+		t.Fatal(err)
+	}
+	defer os.RemoveAll(dir)
+	nw := runtime.GOMAXPROCS(0)
+	results := make([]c07SeqResult, len(cases))
+	var wg sync.WaitGroup
+	for wi := 0; wi < nw; wi++ {
+		wg.Add(1)
+		go func(wi int) {
+			defer wg.Done()
+			for i := wi; i < len(cases); i += nw {
+				results[i] = c07RunSeq(dir, cases[i])
+			}
+		}(wi)
+	}
+	wg.Wait()
+	c07WriteJSON(t, out, map[string]interface{}{"executed": len(cases), "results": results})
 }
 
 // ---------------------------------------------------------------------------------------------
